@@ -72,6 +72,7 @@ type World struct {
 	BadDeleg   map[int]*Cert
 	UnrelCert  *Cert
 	crlReg     map[string]*CRLSpec // pre-run registry (cache seeds)
+	ka         *keyAllocator
 	fetchSlots map[string]*fetchSlot
 }
 
@@ -511,7 +512,7 @@ func (p *RevProfile) genWorld(t *Tape, sc *RevScenario, id int) *World {
 		}
 	}
 	if p.MaxCallers > 1 && w.Entry == EValidateContext {
-		w.Reps = 1 + t.Weighted(55, 20, 10, 8, 7)
+		w.Reps = 1 + t.Weighted(45, 25, 12, 10, 8)
 		if w.Reps == 5 {
 			w.Reps = p.MaxCallers / 2
 		}
